@@ -63,6 +63,9 @@ type FileSpec struct {
 	// map split over several map blocks, in a seeded order, optionally with
 	// extra user entries: 1 schema|codec, 2 codec|schema, 3 user|schema|user|codec, 4 one block, extra entries.
 	MetaSplit int `json:"meta_split,omitempty"`
+	// PadLens (type Padded only): record i carries PadLens[i mod len] bytes of
+	// padding — blocks far larger than any internal chunk or buffer size.
+	PadLens []int `json:"pad_lens,omitempty"`
 }
 
 // BuiltFile is a generated artifact plus what the harness knows about it.
@@ -140,6 +143,16 @@ func genFileSpec(r *Rng, types []string, allowRef bool, maxN int) FileSpec {
 	return fs
 }
 
+// genBigFileSpec: a few records of 64 KiB .. 200 KB each, one per block, so that
+// consecutive blocks exceed every internal chunk and buffer size.
+func genBigFileSpec(r *Rng) FileSpec {
+	fs := FileSpec{Type: "Padded", N: r.Range(2, 4), VSeed: r.Uint64(), Codec: r.Pick(codecNames), Writer: "enc", BlockSize: 1, SyncSeed: r.Uint64()}
+	for i := 0; i < fs.N; i++ {
+		fs.PadLens = append(fs.PadLens, r.PickInt([]int{70000, 66000, 65536, 131073, 200000, 65530, 5}))
+	}
+	return fs
+}
+
 // BuildFile generates the artifact a FileSpec describes. The final Flush is
 // always performed (the file is complete and valid).
 func BuildFile(fs FileSpec) (*BuiltFile, error) {
@@ -152,6 +165,19 @@ func BuildFileWith(fs FileSpec, values []reflect.Value) (*BuiltFile, error) {
 	d := typeByName(fs.Type)
 	fs.N = len(values)
 	bf := &BuiltFile{Spec: fs, Desc: d}
+	if fs.Type == "Padded" && len(fs.PadLens) > 0 {
+		for i, v := range values {
+			pad := make([]byte, fs.PadLens[i%len(fs.PadLens)])
+			x := fs.VSeed + uint64(i)
+			for k := range pad {
+				if k%64 == 0 {
+					x = splitmix(x)
+				}
+				pad[k] = byte(x >> (uint(k%8) * 8)) // mildly compressible
+			}
+			v.Set(reflect.ValueOf(Padded{ID: int64(i) + 1, Pad: pad}))
+		}
+	}
 	bf.Values = values
 	switch fs.Writer {
 	case "enc":
